@@ -271,6 +271,11 @@ def run(ctx: Ctx) -> None:
         by_d.setdefault(d, []).append(sql)
     for d, sqls in sorted(by_d.items()):
         plan.append(("corpus", d, sqls))
+    from vlib.grammar_clauses import clause_statements
+
+    cl = [sql for sql, tags in clause_statements()]
+    for d in (["", "tsql", "duckdb"] if quick else ["", "tsql", "duckdb", "mysql", "postgres", "bigquery", "snowflake", "spark", "oracle", "clickhouse"]):
+        plan.append(("corpus", d, cl))
     plan.append(("pairs", "", k0 + ([] if quick else [s for c, s, t in statements("", 1)][::25])))
     plan.append(("independence", "", k0 + [s for c, s, t in statements("", 1)][::(40 if quick else 8)]))
     res = ctx.run_shards(worker, ctx.jobs * 4, plan, quick)
@@ -295,7 +300,7 @@ def run(ctx: Ctx) -> None:
             "rule": "states = (argument tree, cache state left by earlier calls); transitions = public non-mutating calls: .sql() into all 34 "
                     "dialects (+pretty/identify), transform x3, 14 builders, optimize, qualify/annotate/normalize_identifiers on a copy, "
                     "expand, replace_tables, replace_placeholders, diff in both roles, lineage; single calls on every tree (G_core k<=1, identity.sql; "
-                    "every statement of tests/dialects/*.py in its own dialect with 30 of the calls in quick, all in thorough), all ordered "
+                    "every statement of tests/dialects/*.py in its own dialect and G_clauses (every subset of optional clauses) with 30 of the calls in quick, all in thorough), all ordered "
                     "pairs of calls on the simplest trees, calls on attached sub-trees; copy-independence under every C08 mutation at every "
                     "position. non-trivial = generations during which the generator's private copy WAS mutated (so the argument would "
                     "have been damaged without the copy).",
